@@ -107,6 +107,30 @@ MUTANTS = [
     ('mx-negative-cached', 'C11', 'Mx.lean', '    | .noData | .notFound => some (none, 0)', '    | .noData | .notFound => some (none, now + 60)'),
     ('data-eod-lone-dot-lf', 'C05', 'Data.lean', '  | b :: rest => b == 46 && rest.all isWs && rest.getLast? == some 10', '  | b :: rest => b == 46 && rest == [13, 10]'),
 
+    # ---- fourth batch
+    ('reply-last-line-dash', 'C17', 'Reply.lean', "  | [l] => code ++ [32] ++ l ++ CRLF\n  | l :: rest => code ++ [45] ++ l ++ CRLF ++ encodeLines code rest", "  | [l] => code ++ [45] ++ l ++ CRLF\n  | l :: rest => code ++ [45] ++ l ++ CRLF ++ encodeLines code rest"),
+    ('reply-mixed-codes-consumed', 'C17', 'Reply.lean', 'if code.isSome && code != some cd then .bad buf', 'if code.isSome && code != some cd then .bad r'),
+    ('reply-code-6xx-ok', 'C17', 'Reply.lean', '  | d :: _ => 49 ≤ d && d ≤ 53', '  | d :: _ => 49 ≤ d && d ≤ 54'),
+    ('reply-utf8-surrogates-ok', 'C17', 'Reply.lean', 'let hi : Byte := if b0 == 0xED then 0x9F else 0xBF', 'let hi : Byte := 0xBF'),
+    ('reply-bad-line-not-consumed', 'C17', 'Reply.lean', '    | none => .bad r                                      -- not a reply line: BadReply, line consumed', '    | none => .bad buf'),
+    ('proxy-port-65536', 'C18', 'Proxy.lean', '    if v ≤ 65535 then some v else none', '    if v ≤ 65536 then some v else none'),
+    ('proxy-v2-local-proceeds', 'C18', 'Proxy.lean', '          | some a => if cmd == 0 then (.drop, s2) else (.proceed a, s2)', '          | some a => (.proceed a, s2)'),
+    ('proxy-v2-short-inet-accepted', 'C18', 'Proxy.lean', '              if ad.length < 12 then none', '              if ad.length < 10 then none'),
+    ('proxy-v2-version-ignored', 'C18', 'Proxy.lean', '      if vc &&& 0xf0 != 0x20 then (.proceed .none, s1)\n      else', '      if false then (.proceed .none, s1)\n      else'),
+    ('proxy-unknown-needs-addresses', 'C18', 'Proxy.lean', '      if p0 == kwUNKNOWN then some (.none, .none)', '      if p0 == kwUNKNOWN && ps.isEmpty then some (.none, .none)'),
+    ('proxy-dispatch-v2-first', 'C18', 'Proxy.lean', '    else (.proceed .none, s1)\n\nend Slimta.Proxy', '    else (.drop, s1)\n\nend Slimta.Proxy'),
+    ('bounce-format-keeps-braces', 'C13', 'Bounce.lean', '     | some v => v\n     | none => if remove then [] else [123] ++ k ++ [125]) ++ format remove tbl ps', '     | some v => [123] ++ v ++ [125]\n     | none => if remove then [] else [123] ++ k ++ [125]) ++ format remove tbl ps'),
+    ('edge-reply-needs-all-results', 'C02', 'Edge.lean', '    if s.pending.isEmpty && s.replied.isNone then', '    if s.replied.isNone then'),
+    ('qm-activate-skips-when-active', 'C01', 'QueueM.lean', '      if q.s.active.contains id then some { q with s := s\' }\n      else match q.orig id with', '      if false then some { q with s := s\' }\n      else match q.orig id with'),
+    ('qm-done-keeps-flight', 'C03', 'QueueM.lean', "        some { q with s := s', flight := upd q.flight id none, pend := upd q.pend id p.pend,", "        some { q with s := s', pend := upd q.pend id p.pend,"),
+    ('store-load-drops-first', 'C15', 'Store.lean', '  | .load => (s, .listing (s.recs.map fun (i, r) => (r.ts, i)))', '  | .load => (s, .listing ((s.recs.drop 1).map fun (i, r) => (r.ts, i)))'),
+    ('store-write-attempts-one', 'C15', 'Store.lean', '({ recs := s.recs ++ [(s.next, ⟨sender, content, rcpts, [], 0, ts, true⟩)], next := s.next + 1 }, .id s.next)', '({ recs := s.recs ++ [(s.next, ⟨sender, content, rcpts, [], 1, ts, true⟩)], next := s.next + 1 }, .id s.next)'),
+    ('wire-b64-pad-one', 'C06', 'Wire.lean', '  | [a] => [b64char (a / 4), b64char ((a % 4) * 16), 61, 61]', '  | [a] => [b64char (a / 4), b64char ((a % 4) * 16), 61]'),
+    ('mx-sort-descending', 'C11', 'Mx.lean', '  | x :: xs => if x.1 > r.1 then r :: x :: xs else x :: insertRec r xs', '  | x :: xs => if x.1 < r.1 then r :: x :: xs else x :: insertRec r xs'),
+    ('timeouts-command-uses-data-limit', 'C14', 'Timeouts.lean', '  | .command => some c.command', '  | .command => some c.data'),
+    ('pool-unbounded-ignored', 'C19', 'Pool.lean', 'else if s.size == 0 || s.clients.length < s.size then addClient s', 'else if s.clients.length < s.size then addClient s'),
+    ('deque-remove-keeps-sema', 'C19', 'Pool.lean', '      else ({ items := d.items.erase x, sema := d.sema - 1 }, .unit)', '      else ({ items := d.items.erase x, sema := d.sema }, .unit)'),
+
 ]
 
 
@@ -116,6 +140,10 @@ EXPECTED_SURVIVORS = {
     'relay-all-rcpts-refused-uses-last': 'equivalent: when every RCPT is refused every recipient has a class of its own, and the raised class is used only when all of them are of one kind',
     'relay-lmtp-missing-eod-is-ok': 'unreachable: a script always holds one end-of-data outcome per recipient (a reply that never comes is the outcome "stall", not a shorter list)',
     'session-dead-connection-goes-on': 'not observable: after a connection broke the harness compares the commands of that connection only up to the break (what a dead peer would still have been sent is nothing)',
+    'proxy-unknown-needs-addresses': 'equivalent: a PROXY UNKNOWN line with further fields is taken for UNKNOWN by the code and for unparsable by the mutant, and both mean the address (None, None)',
+    'edge-reply-needs-all-results': 'not driven by the campaign: EnqState is the event-order model behind no_reply_before_writes_complete; its claim is monitored on the code directly (a gated slow write, c02.reply-before-write-completed)',
+    'qm-activate-skips-when-active': 'unreachable in calm runs: a message enqueue() has just written is active only if an announcement of it was dequeued before the hand-off, which Calm excludes (the non-calm witness is the known finding of C12)',
+    'qm-done-keeps-flight': 'not observable: flight is read only by the verdict of a done step, which the scheduler model admits only while the message is in flight, and every hand-off overwrites it',
     'store-redis-incr-creates-zero': 'not observable: the answer of an update on a removed id is outside the storage contract (compared nowhere), and the counter of the hash it recreates is never read (get raises KeyError)',
 }
 
